@@ -78,7 +78,7 @@ func comparedFields(w *World, pr *prover, fns []*ssa.Function) map[string]string
 
 func checkC09(w *World, c *Check, tier string) {
 	c.Exhaustive = true
-	c.Explanation = "Decides the structural clauses of item equality: (cover) in the closure of Object.Equals every property of the object core other than media type and source is compared between the two operands (the same field of both, meeting in one comparison), and likewise actor/target/result/origin/instrument in IntransitiveActivity.Equals and object in Activity.Equals; (idtype) by abstract interpretation, forcing the id equivalence test or the case-insensitive type test to 'different' makes Object.Equals constantly false, and forcing Object.Equals to false makes every other Equals of an object type constantly false; (dispatch) ItemsEqual on two non-nil values of the same concrete type is never the constant false for any vocabulary type (a constantly-false dispatch makes ItemsEqual(x, x) false for the whole type), and with nil-like operands it is the constant 'both nil'; (setloop) a list equality written as nested loops does not return false from inside the inner loop on a single element mismatch (which would demand all pairs equal, so a list with two different entries is unequal to itself). NOT decided: reflexivity/symmetry over all values (lists with id-less members), termination of the swap recursion."
+	c.Explanation = "Decides the structural clauses of item equality: (cover) in the closure of Object.Equals every property of the object core other than media type and source is compared between the two operands (the same field of both, meeting in one comparison), and likewise actor/target/result/origin/instrument in IntransitiveActivity.Equals and object in Activity.Equals; (idtype) by abstract interpretation, forcing the id equivalence test or the case-insensitive type test to 'different' makes Object.Equals constantly false, and forcing Object.Equals to false makes every other Equals of an object type constantly false; (dispatch) ItemsEqual on two non-nil values of the same concrete type is never the constant false for any vocabulary type (a constantly-false dispatch makes ItemsEqual(x, x) false for the whole type), and with nil-like operands it is the constant 'both nil'; (setloop) a list equality written as nested loops does not return false from inside the inner loop on a single element mismatch (which would demand all pairs equal, so a list with two different entries is unequal to itself). (pair) every comparison inside an Equals method relates the same property of both operands; (forms) type predicates list value and pointer forms together; (member) list equality looks members up by themselves. Termination of the operand swap is decided by C04.swap. NOT decided: reflexivity/symmetry as laws over all values beyond these structural conditions."
 	c.RuleText = "obligations: 29 object-core fields + 6 activity fields (cover), id/type forcing x Equals methods (idtype), 14 concrete types (dispatch), loops (setloop)"
 	c.Trusted = []string{"go/ssa", "apcheck prov.go, abstract interpreter"}
 	c.floor("C09.cover", 30)
@@ -668,8 +668,12 @@ func checkC19(w *World, c *Check, tier string) {
 		firstBad := ""
 		for _, sb := range storeBlocks {
 			var header *ssa.BasicBlock
-			for h := range loops[sb] {
-				header = h
+			// the store may sit in an exit branch of the loop (store; return): take the loop of the nearest dominator
+			// that is inside one
+			for d := sb; d != nil && header == nil; d = d.Idom() {
+				for h := range loops[d] {
+					header = h
+				}
 			}
 			if header == nil {
 				firstBad = "the overwriting store is not inside a search loop"
